@@ -262,9 +262,9 @@ def build_extracted(name, extract_v, driver_ml, extra_ml=()):
                 srcs.append(os.path.basename(mli))
             srcs.append(os.path.basename(ml))
         srcs += [os.path.basename(x) for x in extra_ml] + ["driver.ml"]
-        rc, o, e = run(["ocamlfind", "ocamlopt", "-O3", "-w", "-a", "-o", exe] + srcs, cwd=d, timeout=600)
+        rc, o, e = run(["ocamlfind", "ocamlopt", "-package", "unix", "-linkpkg", "-O3", "-w", "-a", "-o", exe] + srcs, cwd=d, timeout=600)
         if rc != 0:
-            rc, o, e = run(["ocamlfind", "ocamlopt", "-w", "-a", "-o", exe] + srcs, cwd=d, timeout=600)
+            rc, o, e = run(["ocamlfind", "ocamlopt", "-package", "unix", "-linkpkg", "-w", "-a", "-o", exe] + srcs, cwd=d, timeout=600)
         if rc != 0:
             return None, "ocaml build failed:\n" + o + e
         open(stamp, "w").write(key)
